@@ -343,6 +343,18 @@ class _Expr(ast.NodeTransformer):
     def visit_Call(self, n: ast.Call):
         self.generic_visit(n)
         f = n.func
+        # x.m(*pair)  ->  x.m(pair[0], pair[1])   when every definition of m takes exactly that many more positional parameters
+        if len(n.args) >= 1 and isinstance(n.args[-1], ast.Starred) and not any(isinstance(a, ast.Starred) for a in n.args[:-1]) and not n.keywords \
+                and isinstance(f, ast.Attribute) and isinstance(n.args[-1].value, (ast.Name, ast.Attribute, ast.Subscript)):
+            defs = self.t.model.methods_named(f.attr)
+            ks = {len(d.params) - 1 - (len(n.args) - 1) for d in defs if not d.node.args.vararg and not d.node.args.defaults and not d.node.args.kwonlyargs}
+            if defs and len(ks) == 1 and len(defs) == len([d for d in defs if not d.node.args.vararg and not d.node.args.defaults and not d.node.args.kwonlyargs]):
+                k = ks.pop()
+                if 1 <= k <= 4:
+                    self.changed = True
+                    star = n.args[-1].value
+                    extra = [ast.Subscript(value=copy.deepcopy(star), slice=ast.Constant(value=i), ctx=ast.Load()) for i in range(k)]
+                    return ast.copy_location(ast.Call(func=f, args=list(n.args[:-1]) + extra, keywords=[]), n)
         if isinstance(f, ast.Name) and f.id == "int" and len(n.args) == 2 and not n.keywords and isinstance(n.args[1], ast.Constant) and n.args[1].value == 10 \
                 and isinstance(n.args[0], (ast.Subscript, ast.Attribute, ast.Name)):
             # int(text, 10) -> int(text): the argument is a token of the parse result (a str); base 10 is the default
